@@ -211,6 +211,23 @@ func c19Handler(r *report.Run) {
 		}
 		qs := w.Queries(rng, 150)
 		clients := w.Clients(rng)
+		// answers that truncation empties (one TXT record beyond 512 bytes, plain UDP query without EDNS): the counters
+		// must describe the message that was written (NOERROR, no answer), not the one composed before scrubbing. Asked
+		// deterministically of every backend, the random loop below only meets these names by chance
+		for _, o := range w.Owners {
+			if !strings.HasPrefix(o, "huge.") && !strings.HasPrefix(gen.Presentation(o), "huge.") {
+				continue
+			}
+			for k, sv := range servers.srv {
+				q := harness.MakeQuery(gen.Presentation(o), dns.TypeTXT, uint16(60000+k))
+				msg := c19CheckQuery(sv, q, "203.0.113.9", false, cacheOn, 8)
+				r.Count("a_queries", 1)
+				r.Count("a_queries_for_answers_too_big_for_plain_udp", 1)
+				if msg != "" {
+					r.Violation("", fmt.Sprintf("%s (cache=%v): %s; query: %s", sv.B.Name, cacheOn, msg, strings.ReplaceAll(q.String(), "\n", " | ")), c19Case{WorldSeed: seed, Backend: sv.B.Name, Cache: cacheOn, Query: q.String(), IP: "203.0.113.9"})
+				}
+			}
+		}
 		for n := 0; n < r.Pick(500, 900); n++ {
 			var q *dns.Msg
 			ip := "203.0.113.9"
